@@ -553,7 +553,7 @@ func extraC06(col *Collector, r *RNG, tier string) {
 				fmt.Sscanf(opts.mapperMode[strings.IndexByte(opts.mapperMode, '@')+1:], "%d", &idx)
 				reached = false
 				for _, c := range mp.calls {
-					if c == h.tables[idx].db+"."+h.tables[idx].name {
+					if c == h.tables[idx].db+"\x00"+h.tables[idx].name {
 						reached = true
 					}
 				}
